@@ -46,6 +46,8 @@ def run(ctx):
     ctx.rule("R10.2", "TAG-COVER: the printer handles every value tag plus 'a' and '-', and every printed tag can be produced by the scanner")
     ctx.rule("R10.3", "KEYWORDS: words and prefixes emitted by the printer are recognised by scanner and checker under the same tag; true/false scan to the right truth value")
     ctx.rule("R10.5", "TIME-FORMAT: the strftime format the printer chooses for a time tag, evaluated over all zero/non-zero combinations of hour, minute, second and fraction, contains a conversion for every non-zero field (nothing is silently dropped) ")
+    ctx.rule("R10.6", "BARE-SYMBOL: a symbol the printer writes without quotes is read back as one symbol: over probe texts the printer's `plain` decision implies that the readers' identifier recogniser consumes the whole text, and no reserved word is printed bare")
+    ctx.rule("R10.7", "LOSSLESS-TYPE: the parenthesised exact form of a float/double is read back with the type of the decimal form (same type suffix in the printed text, or the scanner pins the type on the second pass)")
     ctx.rule("R10.4", "TAG-FIELD: inside the case of tag X only the union member of X is accessed (printer, scanner's numeric switch, arg-val-math.c)")
     pr = u.function("as_escaped_char")
     sc = u.function("get_escaped_char")
@@ -280,3 +282,58 @@ def run(ctx):
             bad.append({"hour": hour, "min": minute, "sec": sec, "fraction": frac, "format": f, "missing": miss})
     ctx.ob("R10.5", "strftime format selection", not bad, site=A.where(fdecl[0]), detail={"cases": ncase, "dropped": bad[:6]},
            what="the printer drops non-zero time fields: %s" % bad[:2])
+
+    # ---- R10.6
+    sS_stmts = ptab.get(ord("S"), [])
+    plain_if = [x for s_ in sS_stmts for x in A.walk(s_) if x.get("kind") == "IfStmt" and A.strip_casts(A.kids(x)[0]).get("kind") == "BinaryOperator" and
+                A.strip_casts(A.kids(x)[0]).get("opcode") == "==" and A.int_literal(A.kids(A.strip_casts(A.kids(x)[0]))[1]) == ord("S") and
+                any(y.get("kind") == "DeclRefExpr" and (y.get("referencedDecl") or {}).get("name") == "plain" for y in A.walk(x))]
+    ctx.require(len(plain_if) >= 1, "R10.6: the printer's bare-symbol decision was not found")
+    pif = plain_if[0]
+    plain_id = [y["referencedDecl"]["id"] for y in A.walk(pif) if y.get("kind") == "DeclRefExpr" and (y.get("referencedDecl") or {}).get("name") == "plain"][0]
+    skid = u.function("skip_identifier")
+    words = ["a", "_", "_a", "a1", "A_9", "abc", "1", "1a", "2nd", "808", "1e5", "2xfoo", "a-b", "a b", "", "x.y", "a/b", "MIDI", "BLOB", "_1"]
+    kws = sorted(set(kc) | set(ks))
+
+    def printer_plain(text):
+        hook, deref = R.string_hooks(text, {"type": ord("S"), "s": R.BASE})
+        ev2 = FD.Eval(env={plain_id: 0}, node_hook=hook, deref=deref)
+        ev2.run(pif)
+        return bool(ev2.env[plain_id])
+
+    def reader_identifier(text):
+        hook, deref = R.string_hooks(text)
+        r = FD.Eval(node_hook=hook, deref=deref).call_function(u, skid, [R.BASE])
+        return r == R.BASE + len(text) and len(text) > 0
+    try:
+        not_ident = [w for w in words + kws if printer_plain(w) and not reader_identifier(w)]
+        bare_kw = [w for w in kws if printer_plain(w)]
+    except FD.Unknown as e:
+        raise AnalysisBroken("R10.6: bare-symbol decision not evaluable: %s" % e)
+    ctx.ob("R10.6", "bare symbols are identifiers", not not_ident, site=A.where(pif), detail={"probes": len(words) + len(kws), "printed_bare_but_not_an_identifier": not_ident},
+           what="the printer writes the symbols %s without quotes, but the readers do not take them for one identifier" % not_ident)
+    ctx.ob("R10.6", "reserved words are quoted", not bare_kw, site=A.where(pif), detail={"reserved_words": kws, "printed_bare": bare_kw},
+           key="R10.6:reserved words printed bare:" + ",".join(bare_kw),
+           what="symbols spelling the reserved words %s are printed without quotes and scan back as keywords" % bare_kw)
+
+    # ---- R10.7
+    def fmt_suffix(f):
+        # type suffix letter that follows the last conversion of a printf format, e.g. "%%#.%dlfd" -> 'd', " (%la)" -> ''
+        m = re.search(r'%[#0-9.l]*[aAfFeEgG]([a-zA-Z]?)', f.replace("%%", "%").replace("%d", "0"))
+        return m.group(1) if m else None
+    dstm = ptab.get(ord("d"), [])
+    dl = lits(dstm)
+    dec = [f for f in dl if "lf" in f and "(" not in f]
+    los = [f for f in dl if "(" in f and "la" in f]
+    ctx.require(dec and los, "R10.7: printer formats for doubles not found (%s)" % dl)
+    same_suffix = fmt_suffix(dec[0]) == fmt_suffix(los[0])
+    # or: the scanner pins the type of the second pass to the first one
+    pins = False
+    for x in A.walk(u.body(scn)):
+        if x.get("kind") == "BinaryOperator" and x.get("opcode") == "=" and A.ref_name(A.kids(x)[0]) == "type":
+            r_ = A.strip_casts(A.kids(x)[1])
+            if r_.get("kind") == "MemberExpr" and r_.get("name") == "type":
+                pins = True
+    dfmt_ok = any(A.string_literal(A.kids(x)[1]) == "%lf%n" for x in A.walk(u.body(scn)) if x.get("kind") == "BinaryOperator" and x.get("opcode") == "=" and A.ref_name(A.kids(x)[0]) == "fmtstr")
+    ctx.ob("R10.7", "double", same_suffix or (pins and dfmt_ok), site=A.where(sws[0]), detail={"decimal_format": dec[0], "lossless_format": los[0], "same_type_suffix": same_suffix, "scanner_pins_type": pins, "reads_with_%lf": dfmt_ok},
+           what="a double prints as `%s` + `%s`: the exact form carries no `d` suffix and the scanner does not pin its type, so it is read as a float" % (dec[0], los[0]))
